@@ -298,6 +298,46 @@ def foreign_variants(res, chunks, rng, k, generated=False):
             return
 
 
+def twins_and_big_samples(res, rng):
+    """(1) Two instruments loaded from the SAME bytes (the same file twice, two clones), each with an effect synth: editing one
+    effect in place leaves the other instrument - and what it saves - alone.  (2) Samples whose size is an exact multiple of
+    powers of two (64 KiB .. 1 MiB): the data comes back byte for byte."""
+    import rv.api as api
+    smp = api.m.Sampler()
+    smp.effect = api.Synth(api.m.Reverb(dry=100, wet=50))
+    s = smp.Sample()
+    s.data, s.format, s.channels = bytes(range(64)), smp.Format.int8, smp.Channels.mono
+    smp.samples[0] = s
+    raw = api.Synth(smp).read()
+    for how in ("loaded-twice", "cloned-twice"):
+        a, b = (workload.load(raw).module, workload.load(raw).module) if how == "loaded-twice" else (smp.clone(), smp.clone())
+        before = api.Synth(b).read()
+        a.effect.module.dry = 7
+        a.samples[0].data = b"\x01\x02"
+        a.volume_envelope.points[0:1] = [(0, 0x1234)]
+        res.count("twin_instrument_cases")
+        if b.effect.module.dry != 100 or api.Synth(b).read() != before:
+            res.violation(f"C16:twin-instruments:{how}", f"two instruments {how} from the same bytes: editing the effect / sample / envelope of one changed the other "
+                                                         f"(effect dry {b.effect.module.dry}, saved bytes {'differ' if api.Synth(b).read() != before else 'same'})", {"family": "twins", "how": how})
+    for size in (65536, 262144, 524288, 262144 * 3, 1048576, 262144 + 1, 262143):
+        m = api.m.Sampler()
+        sm = m.Sample()
+        sm.data, sm.format, sm.channels = bytes((i * 7 + 1) & 0xFF for i in range(4096)) * (size // 4096) + bytes(size % 4096), m.Format.int16, m.Channels.stereo
+        m.samples[1] = sm
+        res.count("big_sample_roundtrips")
+        case = {"family": "big-samples", "bytes": size}
+        try:
+            back = workload.load(api.Synth(m).read()).module.samples[1]
+            p = api.Project()
+            p.attach_module(m)
+            back2 = workload.load(p.read()).modules[1].samples[1]
+        except Exception as e:
+            res.violation(f"C16:big-sample-raises:{workload.exc_key(e)}", f"sample of {size} bytes: save/load raised {e!r}", case)
+            continue
+        if bytes(back.data) != bytes(sm.data) or bytes(back2.data) != bytes(sm.data):
+            res.violation("C16:big-sample", f"sample of {size} bytes comes back with {len(back.data)} / {len(back2.data)} bytes (synth / project) or different content", case)
+
+
 def check_legacy(res, chunks, rng, k):
     kind, raw, expect = make_variant(chunks, rng)
     res.count("legacy_variants")
@@ -408,6 +448,8 @@ def run_shard(spec_, res):
     rng = random.Random(env.shard_seed(spec_["shard"]) + 77)
     for k in range(spec_["legacy"]):
         check_legacy(res, chunks, rng, k)
+    if spec_["shard"] == 0:
+        twins_and_big_samples(res, rng)
     import rv.api as _api
     for k in range(max(12, spec_["legacy"] // 4)):
         src, is_gen = chunks, False
